@@ -779,6 +779,128 @@ def c13(tier, rng, rep, only=None):
             rep.violation("self-check: %s never checked" % k, {"kind": "coverage"}, no_input=True)
 
 
+# ------------------------------------------------------------------------------------- C16
+
+PHRASES = {
+    "greater than": lambda x, b: x > b, "greater or equal to": lambda x, b: x >= b,
+    "less than": lambda x, b: x < b, "less or equal to": lambda x, b: x <= b,
+    "at most": lambda x, b: x <= b, "at least": lambda x, b: x >= b,
+}
+MSG_RE = re.compile(r"^(\w+) is too (small|big|long|short)\. The value (?:length )?must be (.+?) (\S+?)(?: character\(s\))?\.$")
+
+
+def c16(tier, rng, rep, only=None):
+    from syntax import INT_TYPES, ity_min, ity_max, bits_to_frac, f_next_up, f_next_down
+    from fractions import Fraction
+    decls = only if only is not None else corpus.gen_msg_decls(rng.fork("msg"), tier)
+
+    def neighbours(d):
+        fam = d.family()
+        if fam == "int":
+            b = d.bounds[0]
+            return [("i", v) for v in (b - 1, b, b + 1) if ity_min(d.inner) <= v <= ity_max(d.inner)]
+        if fam == "float":
+            is64 = FLOAT_TYPES[d.inner]
+            b = d.bounds[0]
+            return [("f", v) for v in (f_next_down(b, is64), b, f_next_up(b, is64), b ^ (1 << (63 if is64 else 31)))]
+        if fam == "str":
+            b = d.bounds[0]
+            return [("s", "a" * n_) for n_ in (b - 1, b, b + 1) if n_ >= 0]
+        return []
+
+    def ops_for(g, d, r):
+        ops = [("msgs", "")]
+        for v in neighbours(d) if hasattr(d, "bounds") else []:
+            ops.append(("try_new", val_sexp(v)))
+        if hasattr(d, "bounds") and d.family() in ("int", "float"):
+            # a string the inner type parses to a rejected value: the FromStr error embeds the sentence
+            ops.append(("from_str_msg", val_sexp(("s", "7" if d.family() == "int" else "7.5"))))
+        g.add_ops(d, ops)
+    g = make_guard_run(tier, rng, decls=decls, ops_for=ops_for, spec=False, wsname="msg")
+    run_guard(g, rep, rng)
+    n = n_truth = 0
+    phrases_seen = {}
+    for d in g.decls:
+        if d.id not in g.live:
+            rep.notes.append("declaration %s did not compile" % d.id)
+            continue
+        cs = g.by_decl[d.id]
+        m = cs[0]
+        n += 1
+        if m.impl is None:
+            continue
+        impl_msgs = dict(x.split("=", 1) for x in m.impl.split(" | "))
+        model_msgs = dict(x.split("=", 1) for x in (m.model or "").split(" | ") if "=" in x)
+        for variant, text in impl_msgs.items():
+            skeleton = model_msgs.get(variant)
+            mm = MSG_RE.match(text)
+            if not text.startswith(d.name + " "):
+                rep.violation("message of %s::%s does not name the newtype: %r" % (d.name, variant, text), case_payload(m, g))
+            if not hasattr(d, "bounds"):
+                if skeleton != text:
+                    rep.violation("model and implementation differ on the message of %s: %r vs %r" % (variant, text, skeleton),
+                                  case_payload(m, g), no_input=True)
+                continue
+            if not mm:
+                rep.violation("unrecognised bound-violation sentence %r" % text, case_payload(m, g), no_input=True)
+                continue
+            name, _, phrase, btxt = mm.groups()
+            phrases_seen[(d.family(), d.vkind, phrase)] = phrases_seen.get((d.family(), d.vkind, phrase), 0) + 1
+            if phrase not in PHRASES:
+                rep.violation("unknown relation phrase %r in %r" % (phrase, text), case_payload(m, g), no_input=True)
+                continue
+            # the echoed bound must denote the declared bound
+            fam = d.family()
+            if fam == "float":
+                is64 = FLOAT_TYPES[d.inner]
+                bval = bits_to_frac(d.bounds[0], is64)
+                try:
+                    echoed = Fraction(btxt)
+                except ValueError:
+                    echoed = None
+                if echoed is None or abs(echoed - bval) > abs(bval) * Fraction(1, 10 ** 6) + Fraction(1, 10 ** 40):
+                    rep.violation("message echoes %s for the bound %s" % (btxt, float(bval)), case_payload(m, g))
+            else:
+                bval = d.bounds[0]
+                if btxt != str(bval):
+                    rep.violation("message echoes %s for the bound %s" % (btxt, bval), case_payload(m, g))
+            if skeleton is None or skeleton.replace("{}", btxt) != text:
+                rep.violation("model and implementation differ on the message of %s: %r vs %r" % (variant, text, skeleton),
+                              case_payload(m, g), no_input=True)
+            # truthfulness: stated relation vs the real constructor at the bound's neighbours
+            for c in cs[1:]:
+                if c.op != "try_new" or c.impl is None:
+                    continue
+                n_truth += 1
+                if fam == "int":
+                    x = int(c.arg[3:-1])
+                elif fam == "float":
+                    x = bits_to_frac(int(c.arg[3:-1]), FLOAT_TYPES[d.inner])
+                else:
+                    x = len(c.arg[2:-1].split())
+                says = PHRASES[phrase](x, bval)
+                accepted = c.impl.startswith("ok")
+                if says != accepted:
+                    what = "value %s is %s by `%s = %s` but the message states it must be %s %s" % (
+                        c.arg, "accepted" if accepted else "rejected", d.vkind, btxt, phrase, btxt)
+                    if fam == "float" and d.vkind in ("less", "less_or_equal"):
+                        rep.known_hit("float_less_messages_swapped", "the sentences of float `less` and `less_or_equal` are exchanged")
+                    else:
+                        rep.violation(what, case_payload(c, g, {"message": text}))
+            for c in cs[1:]:
+                if c.op == "from_str_msg" and c.impl not in (None, "ok", "na"):
+                    if c.impl != "Failed to parse %s: %s" % (d.name, text):
+                        rep.violation("FromStr error text %r does not embed the validation sentence %r" % (c.impl, text), case_payload(c, g))
+    rep.coverage.update({"evaluations": n + n_truth, "distinct_nontrivial": n_truth,
+                         "rule": "single-validator declarations for every bound kind x family x bound sign / magnitude (literal and constant bounds, several type names); the Display text of every variant is parsed into (type name, relation phrase, echoed bound); the phrase, read literally, is evaluated at the bound and its neighbours (next float up / down, +-1, string lengths) and compared with the real constructor's verdict; texts compared with the model's templates; FromStr error embedding checked",
+                         "phrases": {"%s/%s/%s" % k: v for k, v in sorted(phrases_seen.items())}, "exhaustive": False})
+    for d in g.decls[:: max(1, len(g.decls) // 6)][:6]:
+        if d.id in g.live:
+            rep.samples.append({"decl": d.id, "kind": getattr(d, "vkind", None), "messages": g.by_decl[d.id][0].impl})
+    if n_truth == 0 and only is None:
+        rep.violation("self-check: no sentence evaluated", {"kind": "coverage"}, no_input=True)
+
+
 PROPS = {
     "C01": (["Props/C01.v"], c01, ["bound expressions evaluate without overflow (corpus keeps them in range)",
                                    "user closures are total functions (library of harness/rtgen.py)",
@@ -796,6 +918,8 @@ PROPS = {
                                    "IEEE semantics by Flocq Bcompare; order laws proved without reals (SpecFloat.SFcompare)"]),
     "C13": (["Props/C13.v"], c13, ["views are compared with the inner value inside the Rust process (bitwise for floats)",
                                    "hashes use std DefaultHasher with fixed keys"]),
+    "C16": (["Props/C16.v"], c16, ["decimal rendering of the echoed bound ({:#?}) is not modelled: the harness checks that the echoed text denotes the bound",
+                                   "serde error text is checked by the C04 run"]),
     "C06": (["Props/C06.v"], c06, ["the inner type's FromStr is an oracle (its real result is given to the model)",
                                    "`Any`/generic inner types with FromStr are not in the corpus yet"]),
 }
